@@ -94,6 +94,20 @@ type verifIOFile struct {
 	append bool
 }
 
+var verifIONoSync atomic.Bool
+
+// SetVerifIONoSync makes Sync on files opened through the wrapped local VFS a no-op.  fsync does
+// not change what a reader of the file system sees, only how long a test that opens and closes
+// thousands of directory images takes.
+func SetVerifIONoSync(on bool) { verifIONoSync.Store(on) }
+
+func (f *verifIOFile) Sync() error {
+	if verifIONoSync.Load() {
+		return nil
+	}
+	return f.File.Sync()
+}
+
 func (f *verifIOFile) Write(b []byte) (int, error) {
 	if o := verifIOObs(); o != nil {
 		var off int64
